@@ -374,3 +374,68 @@ def _enclosing_ifs(root: ast.AST, target: ast.AST) -> tp.List[tp.Tuple[ast.If, b
         return False
     rec(root)
     return out
+
+
+def slice_cardinality(ctx: Ctx) -> None:
+    R = 'I.slice-cardinality'
+    ctx.rule(R, 'the number of positions a slice selects depends on all three of start / stop / step: every result of `<slice>.indices(n)` in core is consumed whole '
+             '(starred into range(...) / slice(...)), or, when taken apart, any `stop - start` span formed from its components is computed with the step component '
+             'in the same statement or under a test of it; a span that ignores the step miscounts `[::2]`, `[::-1]` selections (single-row detection, '
+             'assigned widths, fill limits)', floor=6)
+    prog = ctx.prog
+    n = 0
+    for f in prog.all_funcs():
+        if isinstance(f.node, ast.Lambda):
+            continue
+        calls = [c for c in walk_local(f.node) if isinstance(c, ast.Call) and isinstance(c.func, ast.Attribute) and c.func.attr == 'indices' and len(c.args) == 1 and not c.keywords]
+        if not calls:
+            continue
+        parents: tp.Dict[int, ast.AST] = {}
+        for p in ast.walk(f.node):
+            for ch in ast.iter_child_nodes(p):
+                parents[id(ch)] = p
+        for c in calls:
+            n += 1
+            key = f'{f.name}:{norm(c)[:50]}'
+            par = parents.get(id(c))
+            if isinstance(par, ast.Starred):
+                ctx.ok(R, f, c, 'consumed whole (starred)', key=key)
+                continue
+            # component roles: (start, stop, step) as expression texts
+            comp: tp.List[tp.Optional[str]] = [None, None, None]
+            whole: tp.Optional[str] = None
+            if isinstance(par, ast.Assign) and par.value is c and len(par.targets) == 1:
+                t = par.targets[0]
+                if isinstance(t, (ast.Tuple, ast.List)) and len(t.elts) == 3:
+                    comp = [e.id if isinstance(e, ast.Name) else None for e in t.elts]
+                elif isinstance(t, ast.Name):
+                    whole = t.id
+            elif isinstance(par, ast.Subscript) and par.value is c:
+                whole = norm(c)
+
+            def role(e: ast.expr) -> tp.Optional[int]:
+                if isinstance(e, ast.Name) and e.id in comp and e.id != '_':
+                    return comp.index(e.id)
+                if isinstance(e, ast.Subscript) and isinstance(e.slice, ast.Constant) and isinstance(e.slice.value, int) and whole is not None \
+                        and norm(e.value) == whole and 0 <= e.slice.value < 3:
+                    return e.slice.value
+                return None
+            spans = [b for b in walk_local(f.node) if isinstance(b, ast.BinOp) and isinstance(b.op, ast.Sub) and role(b.left) == 1 and role(b.right) == 0]
+            if whole is not None and whole != norm(c):
+                # the whole tuple passed on starred is fine
+                pass
+            if not spans:
+                ctx.ok(R, f, c, 'taken apart, but no stop - start span is formed from the components', key=key)
+                continue
+            sp = spans[0]
+            # the statement holding the span and the enclosing tests
+            stmt: ast.AST = sp
+            while id(stmt) in parents and not isinstance(stmt, ast.stmt):
+                stmt = parents[id(stmt)]
+            region: tp.List[ast.AST] = [stmt] + [i.test for i, _p in _enclosing_ifs(f.node, stmt)]
+            if any(role(x) == 2 for r in region for x in ast.walk(r) if isinstance(x, ast.expr)):
+                ctx.ok(R, f, c, 'span computed with the step component', key=key)
+            else:
+                ctx.bad(R, f, sp, f'`{norm(sp)[:50]}` takes the span of `{norm(c)[:40]}` without its step component: a stepped slice (`[::2]`, `[::-1]`) selects '
+                        'ceil(span / step) positions, not span', key=key)
+    ctx.require(n >= 6, 'slice.indices sites')
